@@ -88,7 +88,7 @@ func runC04(r *Run) {
 		return
 	}
 	g := newEnvGen(r)
-	n := 20 + t.Intn(281, "samples")
+	n := 20 + t.Intn(scale(281, 1500), "samples")
 	r.Mixf("C04 %s samples=%d base=%d cap=%d", cfg, n, g.base, g.cap)
 	prev, _ := safeEstimate(a.Lim)
 	if !checkBounds(r, a, -1, Sample{}, prev) {
@@ -155,7 +155,7 @@ func runC06(r *Run) {
 	}
 	g := newEnvGen(r)
 	g.maxRTT = 1 << 53
-	nPrefix := t.Intn(301, "prefix")
+	nPrefix := t.Intn(scale(301, 1200), "prefix")
 	r.Mixf("C06 %s prefix=%d base=%d cap=%d", cfg, nPrefix, g.base, g.cap)
 	prev := a.Lim.EstimatedLimit()
 	start := prev
@@ -291,7 +291,7 @@ func runC07(r *Run) {
 	}
 	g := newEnvGen(r)
 	g.maxRTT = 1 << 53
-	nPrefix := t.Intn(301, "prefix")
+	nPrefix := t.Intn(scale(301, 1200), "prefix")
 	r.Mixf("C07 %s prefix=%d base=%d cap=%d", cfg, nPrefix, g.base, g.cap)
 	prev := a.Lim.EstimatedLimit()
 	gated := 0
